@@ -1,0 +1,106 @@
+//go:build verif
+
+package traversal
+
+import (
+	"sync/atomic"
+
+	k_nearest_nodes "github.com/anacrolix/dht/v2/k-nearest-nodes"
+	"github.com/anacrolix/dht/v2/krpc"
+	"github.com/anacrolix/dht/v2/types"
+)
+
+// Verification hooks (build tag verif). Each event is emitted at a linearization point of the
+// traversal: while op.mu is held, after the state change and before the broadcast that makes it
+// visible (or, for Returned and Stop, at a point that touches no shared state). Nothing here
+// changes behaviour.
+
+type VerifEvent struct {
+	Seq     uint64
+	Kind    string
+	Cand    *types.AddrMaybeId
+	Node    *krpc.NodeInfo
+	Res     string
+	Flag    bool
+	Flag2   bool
+	Out     int
+	Nu      int
+	Closest []krpc.NodeInfoAddrPort
+	Result  *QueryResult
+}
+
+// Installed by a harness; nil means off.
+var VerifSink func(op *Operation, ev VerifEvent)
+
+var verifSeq uint64
+
+func verifEv(op *Operation, ev VerifEvent) {
+	sink := VerifSink
+	if sink == nil {
+		return
+	}
+	ev.Seq = atomic.AddUint64(&verifSeq, 1)
+	sink(op, ev)
+}
+
+func (op *Operation) verifClosestKeys() (ret []krpc.NodeInfoAddrPort) {
+	op.closest.Range(func(e k_nearest_nodes.Elem) { ret = append(ret, e.Key) })
+	return
+}
+
+type VerifSnap struct {
+	Outstanding int
+	Unqueried   int
+	Queried     int
+	Closest     int
+	HaveQuery   bool
+	Stopping    bool
+	Stopped     bool
+}
+
+// Read-only snapshot taken under op.mu.
+func (op *Operation) VerifSnapshot() VerifSnap {
+	op.mu.Lock()
+	defer op.mu.Unlock()
+	return VerifSnap{
+		Outstanding: op.outstanding,
+		Unqueried:   op.unqueried.Len(),
+		Queried:     len(op.queried),
+		Closest:     op.closest.Len(),
+		HaveQuery:   op.haveQuery(),
+		Stopping:    op.stopping.IsSet(),
+		Stopped:     op.stopped.IsSet(),
+	}
+}
+
+func verifAddNode(n types.AddrMaybeId, res string, op *Operation) VerifEvent {
+	return VerifEvent{Kind: "AddNode", Cand: &n, Res: res, Nu: op.unqueried.Len(), Out: op.outstanding}
+}
+
+func verifStartQuery(n types.AddrMaybeId, op *Operation) VerifEvent {
+	return VerifEvent{Kind: "StartQuery", Cand: &n, Nu: op.unqueried.Len(), Out: op.outstanding}
+}
+
+func verifQueryDone(n types.AddrMaybeId, op *Operation) VerifEvent {
+	return VerifEvent{Kind: "QueryDone", Cand: &n, Nu: op.unqueried.Len(), Out: op.outstanding}
+}
+
+func verifReturned(n types.AddrMaybeId, res QueryResult) VerifEvent {
+	return VerifEvent{Kind: "Returned", Cand: &n, Result: &res}
+}
+
+func verifClosest(node krpc.NodeInfo, nodeOk, dataOk bool, op *Operation) VerifEvent {
+	return VerifEvent{Kind: "Closest", Node: &node, Flag: nodeOk, Flag2: dataOk, Closest: op.verifClosestKeys()}
+}
+
+func verifRunEval(offer bool, op *Operation) VerifEvent {
+	return VerifEvent{Kind: "RunEval", Flag: offer, Flag2: op.haveQuery(), Nu: op.unqueried.Len(), Out: op.outstanding}
+}
+
+func verifSimple(kind string, op *Operation) VerifEvent {
+	ev := VerifEvent{Kind: kind}
+	if op != nil {
+		ev.Out = op.outstanding
+	}
+	return ev
+}
